@@ -115,6 +115,34 @@ def _skipping_path(f, lp, blocks):
     return None
 
 
+DROPPING = ("filter", "filter_map", "take", "take_while", "skip", "skip_while", "step_by", "flatten", "flat_map", "map_while", "scan",
+            "zip", "dedup", "chain", "rev", "peekable", "find", "position", "nth", "last")
+
+
+def _collected_whole(prog, f, table):
+    """1 if the named local is the result of `collect()` / `from_iter` over a chain in which no adaptor can drop an item (and
+    the element is not produced by a fallible step that is ignored)"""
+    from kq.analysis import backward_slice
+    for l in range(len(f.locals)):
+        if f.local_name(l) != table:
+            continue
+        for (bb, idx, kind, payload) in f.defs().get(l, []):
+            src = None
+            if kind == "call" and (callee_name(payload) or "").split("::")[-1] in ("collect", "from_iter") and payload["args"]:
+                src = payload["args"][0]
+            elif kind == "assign" and payload["k"] == "use" and is_place(payload["a"]):
+                d2 = f.single_def(payload["a"]["l"]) if not proj(payload["a"]) else None
+                if d2 and d2[2] == "call" and (callee_name(d2[3]) or "").split("::")[-1] in ("collect", "from_iter") and d2[3]["args"]:
+                    src = d2[3]["args"][0]
+            if src is None:
+                continue
+            _, cals, _ = backward_slice(f, src)
+            names = {c.split("::")[-1] for c in cals}
+            if "map" in names and not (names & set(DROPPING)):
+                return 1
+    return 0
+
+
 def _run(prog, pid):
     res = RuleResult("R-BUILD-ALL", "every iteration of a table-building loop stores its item (or leaves with an error)", floor=1)
     for (fn, table), (props, what, n_all, n_cond, why_cond) in sorted(TABLES.items()):
@@ -137,8 +165,13 @@ def _run(prog, pid):
                 continue      # the stores happen in a nested loop, which is counted on its own
             skip = _skipping_path(f, lp, blocks)
             (always if skip is None else skipping).append((lp, skip))
-        ok = len(always) >= n_all and len(skipping) <= n_cond
-        res.inst(key, where=f.loc, loops_storing_always=len(always), loops_storing_conditionally=len(skipping),
+        collected = 0
+        if len(always) < n_all:
+            # the loop written as an iterator chain: `let table: T = items.iter().map(..).collect();` stores one entry per item by
+            # construction, provided that no adaptor of the chain can drop items
+            collected = _collected_whole(prog, f, table)
+        ok = len(always) + collected >= n_all and len(skipping) <= n_cond
+        res.inst(key, where=f.loc, loops_storing_always=len(always), **({"built_by_collect": collected} if collected else {}), loops_storing_conditionally=len(skipping),
                  reviewed_always=n_all, reviewed_conditional=n_cond, ok=ok)
         res.oblige(ok)
         if not ok:
